@@ -21,7 +21,7 @@ import c11_util as U
 
 THEOREMS = ["C11_same_flight_same_result", "C11_counter_share", "C11_at_most_one_running_partial",
             "C11_handed_pid_is_running_partial", "C11_num_actors_partial", "C11_counter_at_quiescence_partial",
-            "C11_respawn_refuted", "C11_respawn_child_refuted"]
+            "C11_respawn_refuted", "C11_respawn_child_refuted", "C11_driver_within_model"]
 
 
 def nl(l):
